@@ -24,7 +24,7 @@ impl State {
     }
 
     pub fn flush_indents(&mut self) -> Vec<Lex> {
-        let amount = ((self.cur_indent) / 4) as usize;
+        let amount = ((self.cur_indent - 1) / 4) as usize;
         self.cur_indent = 1;
         vec![Lex::new(self.pos, Token::Dedent); amount]
     }
@@ -46,11 +46,14 @@ impl State {
 
         self.token_this_line = true;
         let mut res = self.newlines.pop().map_or(vec![], |nl| vec![nl]);
-        if self.line_indent >= self.cur_indent {
-            let amount = ((self.line_indent - self.cur_indent) / 4) as usize;
+        // Indentation level is the amount of complete steps of four spaces, so that every
+        // indent is matched by exactly one dedent, also if indentation is irregular.
+        let (cur_level, line_level) = ((self.cur_indent - 1) / 4, (self.line_indent - 1) / 4);
+        if line_level >= cur_level {
+            let amount = (line_level - cur_level) as usize;
             res.append(&mut vec![Lex::new(self.pos, Token::Indent); amount]);
         } else {
-            let amount = ((self.cur_indent - self.line_indent) / 4) as usize;
+            let amount = (cur_level - line_level) as usize;
             res.append(&mut vec![Lex::new(self.pos, Token::Dedent); amount]);
             res.push(Lex::new(self.pos, Token::NL));
         }
